@@ -275,6 +275,10 @@ func (c *classEval) isRecv(st *ceState, e ast.Expr) bool {
 	return false
 }
 
+func (c *classEval) isStreamObj(obj types.Object) bool {
+	return obj != nil && (c.recvs[obj] || (c.isStream != nil && c.isStream(obj)))
+}
+
 // canon prints e with locals substituted, constants folded and S for the symbol.
 func (c *classEval) canon(st *ceState, e ast.Expr) string {
 	e = ast.Unparen(e)
@@ -457,7 +461,7 @@ func (c *classEval) reads(st *ceState, e ast.Expr) {
 		// the stream handed to another codec: recorded as one opaque operation
 		if sel, ok := v.Fun.(*ast.SelectorExpr); !ok || !c.isRecv(st, sel.X) {
 			for _, a := range v.Args {
-				if id, isId := ast.Unparen(a).(*ast.Ident); isId && c.isRecv(st, id) {
+				if id, isId := ast.Unparen(a).(*ast.Ident); isId && c.isStreamObj(c.info.ObjectOf(id)) {
 					em := ceEmit{Method: "pass:" + c.canon(st, v.Fun), Call: v, Env: st.env}
 					st.emits = append(st.emits, em)
 					break
